@@ -77,6 +77,11 @@ def run(ctx):
             n_trav += 1
             fresh = txt(parent) in ('value.__class__()', 'type(value)()')
             over_value = 'value' in {x.id for x in ast.walk(items) if isinstance(x, ast.Name)}
+            # the item iterator enumerates the container as it is: sorting needs orderable members (sets of mixed types raise)
+            reorders = any(isinstance(x, ast.Call) and call_name(x) in ('sorted', 'reversed') for x in ast.walk(items)) or \
+                any(isinstance(x, ast.Call) and isinstance(x.func, ast.Attribute) and x.func.attr == 'sort' for x in ast.walk(items))
+            ctx.ob('T20.order', de.fq, 'the item iterator `%s` walks the container in its own order (no sorting: members need not be '
+                   'orderable)' % txt(items), not reorders, loc=loc(de, n))
             ctx.ob('T20.enter', de.fq, 'a traversed container gets a fresh empty instance of its own class as new parent (`%s`) and an '
                    'iterator over its items (`%s`)' % (txt(parent), txt(items)), fresh and over_value, loc=loc(de, n))
     w0, paths0 = paths_of(prog, de)
@@ -141,6 +146,23 @@ def run(ctx):
                            loc=loc(rm, o.node), path=p.describe() if not ok else None)
     if n_exit == 0 or n_enter == 0:
         ctx.unknown('T2.reg', rm.fq, 'enter()/exit() call sites not recognised (exit %d, enter %d)' % (n_exit, n_enter), rm.loc)
+    # every item is offered to visit(): what is appended to the collected items is the visit result (or the identity
+    # short-cut taken only for the default visit)
+    n_app = 0
+    for p in paths:
+        ops = p.ops
+        for o in ops:
+            if o.kind == 'call' and isinstance(o.val.func, ast.Attribute) and o.val.func.attr == 'append' and o.val.args \
+                    and txt(o.node.func.value).replace(' ', '').endswith('[-1][1]'):
+                n_app += 1
+                last = max([x.seq for x in ops if x.kind == 'loop_iter' and x.seq < o.seq] or [-1])
+                seg = [x for x in ops if last < x.seq < o.seq]
+                visited = any(x.kind == 'call' and txt(x.node.func) == 'visit' for x in seg)
+                ident = any(x.kind == 'test' and txt(x.node).replace(' ', '') in ('visitis_orig_default_visit',) and x.info is True for x in seg)
+                ctx.ob('T9.visit', rm.fq, 'an item is collected only after visit() was consulted for it (or visit is the default identity)',
+                       visited or ident, loc=loc(rm, o.node), path=p.describe() if not (visited or ident) else None)
+    if n_app == 0:
+        ctx.unknown('T9.visit', rm.fq, 'no append to the collected items found', rm.loc)
     # path bookkeeping: the key is appended to the path for every entered container except the root itself
     ext = []
     for n in ast.walk(rm.node):
